@@ -201,7 +201,7 @@ func (e *Engine) callFunction(fr *Frame, st *State, fn *ssa.Function, binds []*V
 		k(st, v)
 		return
 	}
-	if ct := e.lookup(name); ct != nil && (fn != e.curFn || fr.depth > 0) && ct.Opts["inline"] == "" {
+	if ct := e.lookup(name); ct != nil && ct.Opts["inline"] == "" { // also for a recursive call of the function under verification: its contract is the induction hypothesis
 		k2 := k
 		if (strings.HasSuffix(name, "Mutex).Lock") || strings.HasSuffix(name, "Mutex).RLock")) && len(args) > 0 && args[0].Sub != nil {
 			k2 = func(st2 *State, res *Val) {
